@@ -419,7 +419,7 @@ fn main() {
 		PartSpec {
 			name: "forward-offchain",
 			rule: &format!("line A-B-C (also A-B-C-D and two parallel B-C channels), generated world; 12..N operations: sends through B in both directions with the hop fee (-1/0/+1 msat) and CLTV delta (-1/0/+1) around B's policy, final CLTV deltas around the expiry buffer, amounts around the next hop's minimum / B's outbound limit / dust thresholds; claims and failures by the recipient; individual message deliveries, forwards, events; asynchronous persistence on B's channels with any completion order; disconnects; manager snapshots and restarts of B. {}", RULE_TAIL),
-			quick_cases: 2200,
+			quick_cases: 2000,
 			thorough_cases: 70_000,
 			max_shrink: 500,
 		},
@@ -430,7 +430,7 @@ fn main() {
 		PartSpec {
 			name: "forward-onchain",
 			rule: &format!("as forward-offchain plus force closes of either link by either end, uncensored mining (conflicting candidates in either order), and mining up to the downstream / upstream expiry of a forwarded HTLC -8..+8 blocks (the next hop claims before, at or after the timeout, or never). {}", RULE_TAIL),
-			quick_cases: 1400,
+			quick_cases: 1200,
 			thorough_cases: 45_000,
 			max_shrink: 500,
 		},
@@ -441,7 +441,7 @@ fn main() {
 		PartSpec {
 			name: "crash-points",
 			rule: &format!("fault enumeration over the crash point: roomy line worlds; setup brings 1-5 exact-policy payments through B to the recipient (some of B's channels persisting asynchronously) and ends with a manager snapshot; the flow starts with the recipient's claim reaching B and continues with 3..21 atomic steps (single message deliveries, single update completions, snapshots, forwards, events, further claims/failures, disconnects); B is crashed after every prefix of the flow (30% of the cases) or after 3-6 picked prefixes, restarted from the newest / an older manager snapshot and the durable (or landed) monitor images, and the continuation is driven to quiescence under all oracles. {} Non-trivial: in at least one crash the restart fell between B learning a preimage and the upstream resolution", RULE_TAIL),
-			quick_cases: 260,
+			quick_cases: 240,
 			thorough_cases: 9_000,
 			max_shrink: 300,
 		},
